@@ -16,6 +16,8 @@ package agent
 //   download    Agent.DownloadFile (sendFileDownload -> receiveAndWriteFile)
 //   shell       the remote-shell path (stdout / stderr / stdin, streaming and PTY mode, real processes):
 //               second half of this check, shell_test.go (c07ShellAll)
+// The receiving end under back-pressure (more frames in flight than the per-stream read queue holds, a
+// reader that pauses, timers) is the schedule part of this check: stream_sched_test.go, package stream.
 // Oracle: every frame written on any link during the run carries at most protocol.MaxPayloadSize
 // payload bytes (and Frame.Encode never refused one: a refused frame would be missing from the far
 // end), and the bytes that arrive at the far end equal the bytes written, in order.
@@ -273,7 +275,7 @@ func c07Sizes(thorough bool) []int {
 
 func TestVerif_C07(t *testing.T) {
 	r := vmc.New("C07", "exploration")
-	r.Rule = "size grid (all sizes around every chunking boundary, small sizes, large sizes) x data path {tcp up/down, port-forward up/down, file upload, file download} through the real ingress, a real transit and a real exit; every frame written during a case is measured; non-trivial = distinct (path, number of data frames) classes; outcomes = distinct (path, size, frames)"
+	r.Rule = "size grid (all sizes around every chunking boundary, small sizes, large sizes) x data path {tcp up/down, port-forward up/down, file upload, file download} through the real ingress, a real transit and a real exit; every frame written during a case is measured; non-trivial = distinct (path, number of data frames) classes; outcomes = distinct (path, size, frames). Schedule part (package stream, TestVerif_C07_Stream, counted in evaluations and in the sched_* counters): one write split into N frames (N around the capacity of the per-stream read queue, and the queue cut down to 1..3 slots) x end-of-write form x application buffer x optional pause of the application, every interleaving of deliverer and reader within the preemption bound with virtual timers; non-trivial = distinct scenarios in which the queue was full while frames were still to be pushed; outcomes = distinct (scenario, highest queue occupancy, bytes read)"
 	var rps c07ShellCase
 	if r.ReplayInto(&rps) && rps.Shell {
 		c07ShellRun(r, rps)
